@@ -39,6 +39,8 @@ const sdl = `type Item {
 	tags: [String!]
 	nums: [Int!]
 	onums: [Int]
+	d: Int @default(int: 7)
+	ds: String @default(string: "dflt")
 }
 type Author {
 	name: String
@@ -83,6 +85,9 @@ func genItem(r *vc.Rng, i int) string {
 	add("t", times)
 	add("blob", blobs)
 	add("j", jsons)
+	// fields with a default: omitted takes the default, an explicit null stays null
+	add("d", ints[:4])
+	add("ds", strs)
 	if r.Chance(3, 5) {
 		p = append(p, `"tags": [`+pick(r, strs)+`, `+pick(r, strs)+`]`)
 	}
@@ -96,7 +101,7 @@ func genItem(r *vc.Rng, i int) string {
 }
 
 const dumpQ = `query {
-	Item { _docID name n f b t blob j tags nums onums }
+	Item { _docID name n f b t blob j tags nums onums d ds }
 	Author { _docID name age books { _docID } }
 	Book { _docID title author { _docID } }
 	Emp { _docID name age boss { _docID } minion { _docID } }
@@ -175,10 +180,25 @@ func runCase(ctx context.Context, out *vc.Out, r *vc.Rng, caseID int, dir string
 		return d.ID().String()
 	}
 	nItems := r.Intn(6)
+	var items []string
 	for i := 0; i < nItems; i++ {
 		js := genItem(r, caseID*100+i)
 		desc = append(desc, js)
-		create("Item", js)
+		items = append(items, create("Item", js))
+	}
+	// deleted documents are not part of a backup (and must not make the export fail)
+	nDeleted := 0
+	if r.Chance(1, 3) {
+		icol, err := src.DB.GetCollectionByName(ctx, "Item")
+		must(err)
+		for _, id := range items {
+			if r.Chance(1, 2) {
+				did, _ := client.NewDocIDFromString(id)
+				_, err := icol.Delete(ctx, did)
+				must(err)
+				nDeleted++
+			}
+		}
 	}
 	// one-to-many
 	nAuthors := r.Intn(3)
@@ -257,6 +277,9 @@ func runCase(ctx context.Context, out *vc.Out, r *vc.Rng, caseID int, dir string
 	out.Emit(fmt.Sprintf("case %d items=%d authors=%d books=%d emps=%d pretty=%v subset=%v", caseID, nItems, nAuthors, nBooks, nEmp, pretty, subset), "ok")
 	out.Nontrivial(fmt.Sprintf("case%d", caseID))
 	out.Count(fmt.Sprintf("pretty:%v", pretty))
+	if nDeleted > 0 {
+		out.Count("with-deleted-documents")
+	}
 	if err := src.DB.BasicExport(ctx, cfg); err != nil {
 		out.Oracle(line, fmt.Sprintf("[export-error] case %d: export fails: %v", caseID, err))
 		return
